@@ -710,9 +710,9 @@ class Remoter(tyming.Tymee):
 
     def refresh(self):
         """
-        Restart tymer
+        Restart tymer from now so it measures tyme since last activity
         """
-        self.tymer.restart()
+        self.tymer.start()
 
 
     def receive(self):
